@@ -57,6 +57,10 @@ def render_stmt(s, ind, ctx):
         sub = ctx["subs"][s["g"] - 1]
         callee = ("gs_%s" % sub["name"]) if sub["kind"] == "c" else ("PLAIN['%s']" % sub["name"])
         return [p + "x = yield from %s(L)" % callee]
+    if t == "yi":
+        vals = "[%s]" % ", ".join(str(i) for i in range(1, s["n"] + 1))
+        src = ("iter(%s)" % vals) if s["k"] == "list" else ("NextOnly(%d)" % s["n"])
+        return [p + "x = yield from %s" % src]
     if t == "reenter":
         resume = "L.g.send(None)" if ctx["coro"] else "next(L.g)"
         return [p + "try:", p + "    " + resume, p + "except ValueError:", p + "    L.append(%d)" % s["k"]]
@@ -76,12 +80,27 @@ _AW = '''class %s:
 '''
 
 
+_NEXTONLY = '''class NextOnly:
+    """an iterator WITHOUT send/throw/close"""
+    def __init__(self, n):
+        self.i = 0
+        self.n = n
+    def __iter__(self):
+        return self
+    def __next__(self):
+        if self.i >= self.n:
+            raise StopIteration
+        self.i += 1
+        return self.i
+'''
+
+
 def render(pub):
     """pub: the record published by the spec {templates, subs, subbodies, ops}.
     Returns (module source [compiled / exec'd], plain-helper source [always plain Python])."""
     subs = pub["subs"]
     mod = ["# cython: language_level=3", "import sys", "PLAIN = {}", "_HX = %r" % {(None if k == "None" else k): v for k, v in pub["ecodes"].items()},
-           "def _hx():", "    t = sys.exc_info()[0]", "    return _HX.get(None if t is None else t.__name__, 909)", "", _AW % "AwC"]
+           "def _hx():", "    t = sys.exc_info()[0]", "    return _HX.get(None if t is None else t.__name__, 909)", "", _NEXTONLY, _AW % "AwC"]
     plain = [_AW % "AwP", "PLAIN_DEFS = {'AwP': AwP}", ""]
     for sub in subs:
         body = pub["subbodies"][sub["b"] - 1]
